@@ -158,6 +158,7 @@ func (e *Env) stmt(s ast.Stmt) {
 					v = e.zero(obj.Type())
 				}
 				e.writeVar(e.localName(obj), obj.Type(), v)
+				e.noteConst(obj, v)
 			}
 		}
 	case *ast.IfStmt:
@@ -267,6 +268,9 @@ func (e *Env) storeTo(l ast.Expr, v Value) {
 			return
 		}
 		e.writeVar(e.localName(vo), vo.Type(), v)
+		if e.info().Defs[x] != nil {
+			e.noteConst(vo, v)
+		}
 	case *ast.SelectorExpr:
 		sel, ok := e.info().Selections[x]
 		if !ok {
@@ -485,6 +489,29 @@ func (e *Env) loop(pos token.Pos, cond func() *Term, body func(), post func(), a
 	}
 	if loopAssigned["Mem"] {
 		e.reassumeConsts()
+	}
+	// typing facts of the havocked locals
+	for _, base := range sortedKeys(e.localTypes) {
+		t := e.localTypes[base]
+		k, _ := kindOf(t)
+		touched := false
+		for _, c := range compsOf(k) {
+			if loopAssigned[base+c.Suf] {
+				touched = true
+			}
+		}
+		if !touched {
+			continue
+		}
+		v := e.readVar(base, t)
+		switch k {
+		case VInt:
+			e.assume(rangeAssume(v.T, t))
+		case VSlice:
+			e.assume(e.wfSlice(v))
+		case VStr:
+			e.assume(e.wfStr(v))
+		}
 	}
 	if loopAssigned["$nextRef"] {
 		// allocation counters only grow
@@ -750,4 +777,80 @@ func (e *Env) returnStmt(s *ast.ReturnStmt) {
 	}
 	e.jump(retB)
 	e.dead()
+}
+
+
+func allLit(ts ...*Term) bool {
+	for _, t := range ts {
+		if t == nil || t.Op != "lit" {
+			return false
+		}
+	}
+	return true
+}
+
+// noteConst records the value of a single-assignment local that is a
+// compile-time constant (propagated so that constant operands stay visible).
+func (e *Env) noteConst(obj types.Object, v Value) {
+	if e.assignCount[obj] != 1 || e.inline > 0 {
+		return
+	}
+	k, _ := kindOf(obj.Type())
+	if v.K != k {
+		return
+	}
+	switch v.K {
+	case VInt, VBool:
+		if allLit(v.T) {
+			v.Typ = obj.Type()
+			e.constVals[obj] = v
+		}
+	case VSlice:
+		if allLit(v.Ref, v.Off, v.Len, v.Cap) {
+			v.Typ = obj.Type()
+			e.constVals[obj] = v
+		}
+	}
+}
+
+// countAssignments counts, per local variable, the statements that assign it.
+func countAssignments(info *types.Info, body *ast.BlockStmt) map[types.Object]int {
+	out := map[types.Object]int{}
+	note := func(x ast.Expr) {
+		if id, ok := ast.Unparen(x).(*ast.Ident); ok {
+			if o := info.Defs[id]; o != nil {
+				out[o]++
+			} else if o := info.Uses[id]; o != nil {
+				out[o]++
+			}
+		}
+	}
+	ast.Inspect(body, func(n ast.Node) bool {
+		switch s := n.(type) {
+		case *ast.AssignStmt:
+			for _, l := range s.Lhs {
+				note(l)
+			}
+		case *ast.IncDecStmt:
+			note(s.X)
+		case *ast.RangeStmt:
+			if s.Key != nil {
+				note(s.Key)
+			}
+			if s.Value != nil {
+				note(s.Value)
+			}
+		case *ast.ValueSpec:
+			for _, nm := range s.Names {
+				note(nm)
+			}
+		case *ast.UnaryExpr:
+			if s.Op == token.AND {
+				note(s.X)
+				note(s.X) // address taken: never treat as constant
+			}
+		}
+		return true
+	})
+	return out
 }
